@@ -346,8 +346,8 @@ class Walker:
                 for nm in names:
                     for c, ef in self._passed.get(nm, ()):
                         vals = [k.value for k in c.keywords if k.arg == p]
-                        if any(k.arg is None for k in c.keywords) or any(isinstance(x, ast.Starred) for x in c.args):
-                            passed = True
+                        if any(k.arg is None for k in c.keywords) or (p in pos and any(isinstance(x, ast.Starred) for x in c.args)):
+                            passed = True       # **kw may carry any name; *args only reaches positional parameters
                         if p in pos:
                             i = pos.index(p) - (1 if bound else 0)
                             if 0 <= i < len(c.args):
@@ -744,9 +744,11 @@ class _Ctx:
             comp, name = s.value, s.targets[0].id
         else:
             return None
-        if len(comp.generators) < 2 or any(g.is_async for g in comp.generators) or \
+        if any(g.is_async for g in comp.generators) or \
                 any(isinstance(y, (ast.Lambda, ast.ListComp, ast.SetComp, ast.DictComp, ast.GeneratorExp, ast.NamedExpr)) for y in ast.walk(comp.elt)):
             return None
+        if len(comp.generators) < 2 and not self._is_pkg_generator_call(comp.generators[0].iter):
+            return None         # (one generator over a package generator function: the loop form lets the generator be expanded in place)
         import copy
         tnames = {y.id for g in comp.generators for y in ast.walk(g.target) if isinstance(y, ast.Name)}
         ren = {n: f"{n}_c{s.lineno}" for n in tnames}
@@ -772,6 +774,17 @@ class _Ctx:
             ast.copy_location(o, s)
             ast.fix_missing_locations(o)
         return out
+
+    def _is_pkg_generator_call(self, e: ast.expr) -> bool:
+        if not isinstance(e, ast.Call):
+            return False
+        try:
+            tgt = self.ti.resolve_call(e, self.fn, self.types)
+        except Exception:
+            return False
+        if tgt.kind != 'pkg' or len(tgt.funcs) != 1 or tgt.via == 'ctor':
+            return False
+        return any(isinstance(y, (ast.Yield, ast.YieldFrom)) for st_ in tgt.funcs[0].node.body for y in self._walk_own(st_))
 
     def _desugar_extend(self, s: ast.stmt) -> Optional[List[ast.stmt]]:
         """`lst.extend(<generator expression / map / filter>)` on a local list: the loop with `lst.append(element)`."""
@@ -1064,7 +1077,11 @@ class _Ctx:
         def visit(n, is_top):
             # calls evaluated per element (comprehensions), later (lambdas) or conditionally (conditional expressions,
             # the right operands of and/or) cannot be moved in front of the statement
-            if isinstance(n, (ast.Lambda, ast.ListComp, ast.SetComp, ast.DictComp, ast.GeneratorExp)):
+            if isinstance(n, (ast.ListComp, ast.SetComp, ast.DictComp, ast.GeneratorExp)):
+                # ... except the iterable of the leftmost `for`, which is evaluated once, in the enclosing scope, before anything else
+                visit(n.generators[0].iter, False)
+                return
+            if isinstance(n, ast.Lambda):
                 return
             for c in ast.iter_child_nodes(n):
                 if isinstance(n, ast.IfExp) and c is not n.test:
@@ -2757,7 +2774,8 @@ class _Ctx:
             if isinstance(it0, Fresh) and st.contents.get(it0) is not None:
                 it0 = TupleT(tuple(st.contents[it0]))
             items = self._literal_items(it0)
-            if items is not None and (not isinstance(e.generators[0].iter, ast.Name) or isinstance(it0, TupleT)):
+            hoisted = isinstance(e.generators[0].iter, ast.Name) and e.generators[0].iter.id.startswith('__h')   # a temporary of _hoist_nested
+            if items is not None and (not isinstance(e.generators[0].iter, ast.Name) or isinstance(it0, TupleT) or hoisted):
                 saved0 = dict(st.env)
                 vals = []
                 for item in items:
@@ -3656,7 +3674,8 @@ class _Ctx:
                 if isinstance(f, ast.Name) and f.id in st.env:
                     # the class comes from a variable (static type Type[C]): keep which variable, the dynamic class may
                     # be any subclass
-                    kwt = tuple(sorted(kwt + (('<cls>', st.env[f.id]),)))
+                    if st.env[f.id] != Sym(tgt.ctor_class.qualname):       # ... unless it is bound to the class itself (inlined classmethod)
+                        kwt = tuple(sorted(kwt + (('<cls>', st.env[f.id]),)))
                 r = App('new:' + tgt.ctor_class.qualname, tuple(args), kwt)
                 ev = self.emit(st, 'call', e, targets=tgt.funcs, target_kind='pkg', callee_name=cname, recv=r,
                                args=tuple(args), kw=kwt, via='ctor', expr=e, result=r, ctor_class=tgt.ctor_class)
